@@ -10,6 +10,7 @@ import tempfile
 import time
 
 import scenario
+import lib
 from lib import *
 
 WHAT = "the value in effect is not the one from the highest-precedence layer that sets it (or layering is not associative / empty layer not neutral / lists do not accumulate in order)"
@@ -151,7 +152,7 @@ def run_e2e(rec):
 def run(prop, tier, replay=None):
     t0 = time.time()
     work = workdir(f"{prop}-{tier}")
-    build_s = build(need_scrut_bin=True)
+    build_s = build(need_scrut_bin=True, allow_broken_harness=True)
     V = Verdicts(prop)
     cov = {}
     if replay:
@@ -168,8 +169,14 @@ def run(prop, tier, replay=None):
         log(f"MC ConfigLayers: {res.distinct} layer assignments; precedence, associativity, identity and list accumulation hold on the model, {res.wall:.0f}s")
     vpath, rpath = os.path.join(work, "vectors.ndjson"), os.path.join(work, "records.ndjson")
     write_ndjson(vpath, vectors)
-    harness(["config-replay", "--vectors", vpath, "--records", rpath])
-    records = read_ndjson(rpath)
+    if lib.HARNESS_BROKEN[0]:
+        # the harness does not compile against /repo any more: only the end-to-end leg is real; the library-level
+        # observation is filled with the model's own value (and the check ends as a tool error unless that leg finds something)
+        records = [{"ev": "Load", "id": i + 1, "cli": v["cli"], "tc": v["tc"], "doc": v["doc"], "fmt": v["fmt"], "model_eff": v["eff"],
+                    "obs": {"eff": v["eff"], "associative": True, "identity": True, "lists_ok": True, "e2e": "skip"}} for i, v in enumerate(vectors)]
+    else:
+        harness(["config-replay", "--vectors", vpath, "--records", rpath])
+        records = read_ndjson(rpath)
     with concurrent.futures.ThreadPoolExecutor(max_workers=min(NCPU, 12)) as ex:
         for r, e in zip(records, ex.map(run_e2e, records)):
             r["obs"]["e2e"] = e if e in ("ok", "skip") else "fail"
@@ -210,6 +217,8 @@ def run(prop, tier, replay=None):
         for b in sorted(set(bad)) or ["unclassified"]:
             V.violation(b, WHAT, {"vector": {k: r[k] for k in ("cli", "tc", "doc", "fmt")}, "observed": o})
     code, nviol, known = V.finish()
+    if lib.HARNESS_BROKEN[0] and nviol == 0:
+        tool_error("harness build failed (does /repo still compile with --features verif?); the end-to-end leg found no violation")
     if not replay:
         cov.update({
             "states": states, "transitions": max(trans, 1), "traces_validated_against_impl": validated,
